@@ -11,7 +11,7 @@ from hypothesis import strategies as st
 from . import cmakegen, core, refs
 
 DIRNAMES = ["a", "b", "a.b", "x-y", "mod", "mod.v2", "build", "sub", "t1", "deep", "cm.cmake", "n"]
-STEMS = ["m", "n1", "n2", "n3", "a", "b", "a.b", "x-y", "x", "mod", "util", "zed", "lib.core", "cm", "N1"]
+STEMS = ["m", "n1", "n2", "n3", "a", "b", "a.b", "x-y", "x", "mod", "util", "zed", "lib.core", "cm", "N1", "tc.cmake.in", "dup.cmake"]
 EXTS = [".cmake", ".cmake", ".cmake", ".cmake", ".cmake", ".CMAKE", ".CMake", ".txt", ".cmake.in", ""]
 PROJ_NAMES = ["proj", "src", "my-proj", "p.q", "cmake"]
 LOC_NAMES = ["w1", "site", "work", "ci", "checkout", "deep", "build", "mod"]
